@@ -104,6 +104,7 @@ type Case struct {
 	Seed  int64  `json:"seed"`
 	Craft []int  `json:"craft,omitempty"` // crafted float indices; empty = seeded source
 	List  []int  `json:"list,omitempty"`  // shuffle input
+	T     int    `json:"trials,omitempty"` // uniformity: number of samples
 }
 
 func (c Case) Key() string {
@@ -320,8 +321,10 @@ func monitor(c Case) (kind, what string, params P) {
 			switch {
 			case i < c.K && (x[0] != i || x[1] != i):
 				return "xrand-sampler-contract", fmt.Sprintf("%s: decision %d is %v, want (%d,%d) while the reservoir fills", c.Key(), i, x, i, i), pr
-			case i >= c.K && (x[0] < c.K || x[1] < 0 || (c.K > 0 && x[1] >= c.K)):
-				return "xrand-sampler-contract", fmt.Sprintf("%s: decision %d is %v: need next >= k and 0 <= replace < k", c.Key(), i, x), pr
+			case i >= c.K && (x[0] < c.K || ((x[1] < 0 || x[1] >= c.K) && x[0] < c.N)):
+				// exactly Juniper.Spec.Helpers.SamplerContract: replace is a reservoir index unless
+				// the decision is the stopping one (next >= n)
+				return "xrand-sampler-contract", fmt.Sprintf("%s: decision %d is %v: need next >= k and (0 <= replace < k or next >= n)", c.Key(), i, x), pr
 			case i > 0 && x[0] <= d[i-1][0]:
 				return "xrand-sampler-contract", fmt.Sprintf("%s: next not strictly increasing at decision %d: %v after %v", c.Key(), i, x, d[i-1]), pr
 			}
@@ -556,7 +559,7 @@ func uniformity(res *vlib.Result, variant string, n, k, T int, seed int64) {
 		if ok, why := distinctInRange(out, n); !ok || len(out) != k {
 			res.Fail(vlib.Failure{Source: "monitor", Kind: "xrand-sample-distinct", Params: pr,
 				What: fmt.Sprintf("%s(n=%d,k=%d) seed %d trial %d = %v: %s", variant, n, k, seed, t, out, why),
-				Case: Case{Fn: "uniformity:" + variant, N: n, K: k, Seed: seed}})
+				Case: Case{Fn: "uniformity:" + variant, N: n, K: k, Seed: seed, T: T}})
 			return
 		}
 		for _, p := range out {
@@ -583,7 +586,7 @@ func uniformity(res *vlib.Result, variant string, n, k, T int, seed int64) {
 			res.Fail(vlib.Failure{Source: "monitor", Kind: "xrand-sample-not-uniform", Params: pr,
 				What: fmt.Sprintf("%s(n=%d,k=%d), %d samples from seed %d: inclusion counts %v, chi-square %.1f on %d dof, p=%.3g < 1e-9",
 					variant, n, k, T, seed, trunc(incl), stat, n-1, pv),
-				Case: Case{Fn: "uniformity:" + variant, N: n, K: k, Seed: seed}})
+				Case: Case{Fn: "uniformity:" + variant, N: n, K: k, Seed: seed, T: T}})
 			return
 		}
 	}
@@ -600,7 +603,7 @@ func uniformity(res *vlib.Result, variant string, n, k, T int, seed int64) {
 			res.Fail(vlib.Failure{Source: "monitor", Kind: "xrand-sample-not-uniform", Params: pr,
 				What: fmt.Sprintf("%s(n=%d,k=%d), %d samples from seed %d: subset counts %v, chi-square %.1f on %d dof, p=%.3g < 1e-9",
 					variant, n, k, T, seed, trunc(subs), stat, nsub-1, pv),
-				Case: Case{Fn: "uniformity:" + variant, N: n, K: k, Seed: seed}})
+				Case: Case{Fn: "uniformity:" + variant, N: n, K: k, Seed: seed, T: T}})
 		}
 	}
 }
@@ -750,7 +753,10 @@ func main() {
 		}
 		if strings.HasPrefix(c.Fn, "uniformity:") {
 			r2 := vlib.NewResult("C19", "")
-			T := 200000
+			T := c.T
+			if T <= 0 {
+				T = 200000
+			}
 			uniformity(r2, strings.TrimPrefix(c.Fn, "uniformity:"), c.N, c.K, T, c.Seed)
 			for _, f := range r2.Failures {
 				fmt.Println("monitor:", f.Kind, f.What)
